@@ -45,7 +45,7 @@ def jobs_for(tier, only, kind):
             bes = (False, True) if (tier == 'thorough' or k == 'scalar' or size > 1) else (False,)
             for be in bes:
                 jobs.append(Job('%s.%s.%s.F.%s' % (kind, name, mn, 'be' if be else 'le'), gen_f(code, mode, P, D), SRC,
-                                be=be, unwind=max(70, P + D + 24), unwindset=WALKER, timeout=1700,
+                                be=be, unwind=max(70, P + D + 48), unwindset=WALKER, timeout=1700, mem_gb=(12 if tier == 'quick' else 14),
                                 backend='cadical', object_bits=12,
                                 loop_policy=codec_loop_policy(name, D // size + 2),
                                 meta={'datatype': name, 'address_mode': mn, 'path_length': 'symbolic 0..%d' % P,
